@@ -10,7 +10,9 @@ From Coq Require Import List ZArith Bool Arith Lia Ring InitialRing.
 Import ListNotations.
 From Coq Require Import Sorted.
 From Coq Require Import NArith.
-From QV Require Import Model.C20 Proofs.C20 Proofs.C20_enum Proofs.C20_alg Proofs.C20_had.
+From Coq Require Import QArith.
+From QV Require Import Model.C20 Model.C20_b Proofs.C20 Proofs.C20_enum Proofs.C20_alg Proofs.C20_had
+  Proofs.C20_ext Proofs.C20_qft.
 Open Scope Z_scope.
 
 (* ---------------------------------------------------------------- ladder *)
@@ -349,17 +351,6 @@ Proof.
 Qed.
 Print Assumptions C20_basis_positions.
 
-(* W and GHZ states: the kets that are summed sit at 2^(N-1-k) and at 0, 2^N-1
-   (checked for the first qubit counts by computation; bound in the statement) *)
-Theorem C20_w_ghz_positions_upto_10 :
-  forallb (fun N => forallb (fun k => match nth k (w_positions N) (Err EIndex) with
-                                      | Ok p => p =? 2 ^ Z.of_nat (N - 1 - k)
-                                      | Err _ => false end) (seq 0 N)
-                    && match ghz_positions N with
-                       | [Ok a; Ok b] => (a =? 0) && (b =? 2 ^ Z.of_nat N - 1)
-                       | _ => false end) (seq 1 10) = true.
-Proof. vm_compute. reflexivity. Qed.
-Print Assumptions C20_w_ghz_positions_upto_10.
 
 (* ------------------------------------------------- hadamard_transform(N) *)
 (* for every number of qubits n and all indices below 2^n, the sign the code
@@ -387,3 +378,195 @@ Example C20_nonvacuous_hadamard :
   (301 < 2 ^ N.of_nat 9)%N /\ (511 < 2 ^ N.of_nat 9)%N /\
   hadamard_sign 301 511 = -1 /\ hpow 9 301 511 = -1 /\ hamming_distance 301 = 5%nat.
 Proof. repeat split; try reflexivity. Qed.
+
+(* ====================================================== extension round *)
+(* ---- jmat(j, 'x'|'y'|'z') as the code builds them from J+:
+   [Jz, J-] = -J- (doubled) for every j, and for ANY matrices with
+   [P, M] = Z2, half + half = 1:  [Jx, Jy] = i Jz  with
+   Jx = (P + M) half,  Jy = P (-half i) + M (half i),  Jz = Z2 half *)
+Theorem C20_spin_lowering_commutator :
+  forall (R : Type) (rO rI : R) (radd rmul rsub : R -> R -> R) (ropp : R -> R)
+         (Rth : ring_theory rO rI radd rmul rsub ropp eq) (sq : Z -> R),
+    sq 0 = rO ->
+  forall J, 0 <= J -> forall mp mz, jplus_rad J = Ok mp -> jz2_diag J = Ok mz ->
+  let n := Z.to_nat (J + 1) in
+  forall i j, (i < n)%nat -> (j < n)%nat ->
+    rsub (mmul R rO radd rmul n (Jz2 R rO rI radd rmul ropp mz) (Jm R sq mp) i j)
+         (mmul R rO radd rmul n (Jm R sq mp) (Jz2 R rO rI radd rmul ropp mz) i j)
+    = ropp (rmul (zr R rO rI radd rmul ropp 2) (Jm R sq mp i j)).
+Proof.
+  intros R rO rI radd rmul rsub ropp Rth sq sq0 J HJ mp mz Ep Ez n i j Hi Hj.
+  exact (comm_JzJm R rO rI radd rmul rsub ropp Rth sq sq0 J HJ mp mz Ep Ez i j Hi Hj).
+Qed.
+Print Assumptions C20_spin_lowering_commutator.
+
+Theorem C20_spin_xyz_commutator :
+  forall (R : Type) (rO rI : R) (radd rmul rsub : R -> R -> R) (ropp : R -> R)
+         (Rth : ring_theory rO rI radd rmul rsub ropp eq) (half im : R),
+    radd half half = rI ->
+  forall n (P M Z2 : nat -> nat -> R),
+    (forall i j, (i < n)%nat -> (j < n)%nat ->
+       rsub (mmul R rO radd rmul n P M i j) (mmul R rO radd rmul n M P i j) = Z2 i j) ->
+  forall i j, (i < n)%nat -> (j < n)%nat ->
+    rsub (mmul R rO radd rmul n (Jx_ R radd rmul half P M) (Jy_ R radd rmul ropp half im P M) i j)
+         (mmul R rO radd rmul n (Jy_ R radd rmul ropp half im P M) (Jx_ R radd rmul half P M) i j)
+    = rmul im (Jz_ R rmul half Z2 i j).
+Proof.
+  intros R rO rI radd rmul rsub ropp Rth half im Hh n P M Z2 H i j Hi Hj.
+  exact (comm_JxJy R rO rI radd rmul rsub ropp Rth half im Hh n P M Z2 H i j Hi Hj).
+Qed.
+Print Assumptions C20_spin_xyz_commutator.
+
+(* the commutator premise is satisfiable non-trivially: the 2x2 ladder pair
+   over Z with [P, M] = diag(1, -1) *)
+Example C20_nonvacuous_xyz :
+  exists (P M Z2 : nat -> nat -> Z),
+    (forall i j, (i < 2)%nat -> (j < 2)%nat ->
+       mmul Z 0 Z.add Z.mul 2 P M i j - mmul Z 0 Z.add Z.mul 2 M P i j = Z2 i j) /\ Z2 0%nat 0%nat = 1.
+Proof.
+  exists (fun i j => if (i =? 0)%nat && (j =? 1)%nat then 1 else 0),
+         (fun i j => if (i =? 1)%nat && (j =? 0)%nat then 1 else 0),
+         (fun i j => if (i =? j)%nat then (if (i =? 0)%nat then 1 else -1) else 0).
+  split; [|reflexivity]. intros i j Hi Hj.
+  destruct i as [|[|i]], j as [|[|j]]; try lia; reflexivity.
+Qed.
+
+(* ---- swap(N, M) is the index exchange for every N, M: the row of |m>|n>
+   carries its 1 in the column of |n>|m>, the table is a permutation of
+   0..NM-1 and swap(N, M) swap(M, N) = 1 *)
+Theorem C20_swap_index_exchange :
+  forall N M,
+    length (swap_cols N M) = (M * N)%nat /\
+    (forall m n, (m < M)%nat -> (n < N)%nat -> swap_col N M (m * N + n) = (n * M + m)%nat) /\
+    (forall r, (r < M * N)%nat -> (swap_col N M r < N * M)%nat) /\
+    (forall r, (r < N * M)%nat -> swap_col N M (swap_col M N r) = r).
+Proof.
+  intros N M. split; [apply swap_cols_length|]. split; [apply swap_col_exchange|].
+  split; [apply swap_col_range|apply swap_col_involution].
+Qed.
+Print Assumptions C20_swap_index_exchange.
+
+(* closed form used by the harness at large sizes *)
+Theorem C20_swap_closed_form :
+  forall N M r, (r < M * N)%nat ->
+    Z.of_nat (swap_col N M r) = swap_col_formula (Z.of_nat N) (Z.of_nat M) (Z.of_nat r).
+Proof. exact swap_col_formula_ok. Qed.
+Print Assumptions C20_swap_closed_form.
+
+Example C20_nonvacuous_swap : swap_cols 3 2 = [0; 2; 4; 1; 3; 5]%nat /\ swap_col 3 2 (1 * 3 + 2) = (2 * 2 + 1)%nat.
+Proof. split; reflexivity. Qed.
+
+(* ---- W and GHZ states for every number of qubits: the N kets summed by
+   w_state sit at 2^(N-1-k), k = 0..N-1 (pairwise different, so with the
+   amplitude sqrt(1/N) the norm is 1); ghz_state sums |0..0> and |1..1> at 0
+   and 2^N - 1.  Replaces the bounded C20_w_ghz_positions_upto_10. *)
+Theorem C20_w_ghz_positions_all_N :
+  forall N, length (w_positions N) = N /\
+    (forall k, (k < N)%nat -> nth k (w_positions N) (Err EIndex) = Ok (2 ^ Z.of_nat (N - 1 - k))) /\
+    ghz_positions N = [Ok 0; Ok (2 ^ Z.of_nat N - 1)].
+Proof.
+  intros N. split; [apply w_positions_length|]. split; [apply w_position|apply ghz_positions_all].
+Qed.
+Print Assumptions C20_w_ghz_positions_all_N.
+
+(* ---- thermal_dm: exact rational populations.  analytic: the truncated
+   geometric series sums to 1 - (n/(1+n))^N (< 1: not normalised, as
+   documented); operator: populations divided by their (positive) sum have
+   unit trace *)
+Theorem C20_thermal_analytic_trace :
+  forall N n, ~ (1 + n == 0)%Q ->
+    (qsum (thermal_analytic N n) == 1 - qpow (n / (1 + n)) N)%Q.
+Proof. exact thermal_analytic_sum. Qed.
+Print Assumptions C20_thermal_analytic_trace.
+
+Theorem C20_thermal_operator_trace :
+  forall N n, (0 <= n)%Q -> (1 <= N)%nat -> (qsum (thermal_operator N n) == 1)%Q.
+Proof.
+  intros N n Hn HN. apply thermal_operator_sum. intros E.
+  pose proof (thermal_partition_positive N n Hn HN) as P. rewrite E in P. discriminate.
+Qed.
+Print Assumptions C20_thermal_operator_trace.
+
+Example C20_nonvacuous_thermal :
+  ~ (1 + 1 == 0)%Q /\ map Qred (thermal_analytic 3 1) = [1 # 2; 1 # 4; 1 # 8]%Q.
+Proof. split; [discriminate|reflexivity]. Qed.
+
+(* ---- tunneling(N, m) for every N >= 1, 0 <= m <= N: entries, and the
+   literal _isunitary = (2m == N) is exact (T T = 1 iff 2m = N) *)
+Theorem C20_tunneling_matrix_elements :
+  forall N m, 1 <= N -> 0 <= m <= N ->
+  exists t, tunneling_mat N m = Ok t /\ dim t = Z.to_nat N /\
+    forall i j, (i < Z.to_nat N)%nat -> (j < Z.to_nat N)%nat -> zentry t i j = tun_entry m i j.
+Proof. exact tunneling_ok. Qed.
+Print Assumptions C20_tunneling_matrix_elements.
+
+Theorem C20_tunneling_unitary_flag_exact :
+  forall N m, 1 <= N -> 0 <= m <= N ->
+  let n := Z.to_nat N in
+  tunneling_isunitary N m = true <->
+  (forall i j, (i < n)%nat -> (j < n)%nat ->
+     mmul Z 0 Z.add Z.mul n (tun_entry m) (tun_entry m) i j = if (i =? j)%nat then 1 else 0).
+Proof. exact tunneling_flag_exact. Qed.
+Print Assumptions C20_tunneling_unitary_flag_exact.
+
+(* N - m < 0: np.ones raises *)
+Theorem C20_tunneling_error_branch : forall N m, N < m -> tunneling_mat N m = Err ENegLen.
+Proof. intros N m H. unfold tunneling_mat. now replace (N - m <? 0) with true by (symmetry; apply Z.ltb_lt; lia). Qed.
+Print Assumptions C20_tunneling_error_branch.
+
+(* ---- charge(Nmax, Nmin, frac) for every Nmin <= Nmax and integer frac:
+   diagonal frac*(Nmin + i), and the literal _isunitary says exactly that all
+   diagonal entries square to 1 *)
+Theorem C20_charge_matrix_elements :
+  forall Nmax Nmin frac, Nmin <= Nmax ->
+  exists t, charge_diag Nmax Nmin frac = Ok t /\ dim t = Z.to_nat (Nmax - Nmin + 1) /\
+    forall i j, (i < Z.to_nat (Nmax - Nmin + 1))%nat -> (j < Z.to_nat (Nmax - Nmin + 1))%nat ->
+      zentry t i j = if (i =? j)%nat then frac * (Nmin + Z.of_nat i) else 0.
+Proof. exact charge_ok. Qed.
+Print Assumptions C20_charge_matrix_elements.
+
+Theorem C20_charge_unitary_flag_exact :
+  forall Nmax Nmin frac, charge_isunitary Nmax Nmin frac =
+    forallb (fun x => x * x =? 1) (map (Z.mul frac) (arange Nmin (Nmax + 1))).
+Proof. exact charge_flag_exact. Qed.
+Print Assumptions C20_charge_unitary_flag_exact.
+
+(* ---- enr_destroy, converse of C20_enr_destroy_restriction_partial: every
+   element <t1 - e_idx| a_idx |t1> = sqrt(t1_idx) between enumerated states is
+   stored.  Together: the ENR operator is exactly the restriction of the
+   full-space lowering operator to the allowed states. *)
+Theorem C20_enr_destroy_complete :
+  forall dims E l idx, (forall st, In st l <-> admissible dims st E) ->
+  forall n1 t1, nth_error l n1 = Some t1 -> 0 < nth idx t1 0 ->
+  exists n2, nth_error l n2 = Some (set_nth idx (nth idx t1 0 - 1) t1) /\
+             In (Ok (n2, n1, nth idx t1 0)) (enr_destroy_mode l idx).
+Proof. exact enr_destroy_complete. Qed.
+Print Assumptions C20_enr_destroy_complete.
+
+(* ---- qft(N) is unitary for every N >= 1: with w an N-th root of unity such
+   that w^d - 1 (0 < d < N) is no zero divisor, the table w^(r c) times the
+   table of conjugates w^((N-r) c) is N times the identity (the common factor
+   1/sqrt(N) of the code squares to 1/N) *)
+Theorem C20_qft_unitary :
+  forall (R : Type) (rO rI : R) (radd rmul rsub : R -> R -> R) (ropp : R -> R)
+         (Rth : ring_theory rO rI radd rmul rsub ropp eq) (w : R) (N : nat),
+    (1 <= N)%nat -> rpow R rI rmul w N = rI ->
+    (forall d x, (0 < d < N)%nat -> rmul x (rsub (rpow R rI rmul w d) rI) = rO -> x = rO) ->
+  forall j j', (j < N)%nat -> (j' < N)%nat ->
+    sumn R rO radd N (fun k => rmul (F R rI rmul w j k) (Fdag R rI rmul w N k j')) =
+    if (j =? j')%nat then zr R rO rI radd rmul ropp (Z.of_nat N) else rO.
+Proof.
+  intros R rO rI radd rmul rsub ropp Rth w N HN Hr Hp j j' Hj Hj'.
+  exact (qft_unitary R rO rI radd rmul rsub ropp Rth w N HN Hr Hp j j' Hj Hj').
+Qed.
+Print Assumptions C20_qft_unitary.
+
+(* instance: N = 2, w = -1 over the integers (the unnormalised Hadamard table) *)
+Example C20_nonvacuous_qft :
+  (1 <= 2)%nat /\ rpow Z 1 Z.mul (-1) 2 = 1 /\
+  (forall d x, (0 < d < 2)%nat -> x * (rpow Z 1 Z.mul (-1) d - 1) = 0 -> x = 0) /\
+  F Z 1 Z.mul (-1) 1 1 = -1.
+Proof.
+  split; [lia|]. split; [reflexivity|]. split; [|reflexivity].
+  intros d x Hd H. assert (d = 1%nat) as -> by lia. simpl in H. lia.
+Qed.
